@@ -6,6 +6,8 @@ and class-hierarchy facts.  Proof-level: every obligation is generated from the
 current tree and discharged or reported.
 """
 from facts import AnalysisBroken, stmts, strip_casts, walk
+from symex import Sym, State, Unsupported, NULL
+import contracts
 
 LEVEL = 'proof'
 TITLE = 'C06 category code, accept() and visitor defaults agree for every node class'
@@ -127,6 +129,8 @@ def arg_is_this(e):
 
 
 def run(ck, F):
+    S6 = Sym(F, opaque=lambda fid: F.fn.get(fid) is None, max_depth=24)
+    S6v = Sym(F, opaque=lambda fid: F.fn.get(fid) is None, max_depth=24)
     ck.explanation = (
         'Exhaustive enumeration of the finite space: every Category_code enumerator, every interface class, '
         'every Visitor::visit overload and default hook, every concrete class derived from ipr::Node that '
@@ -283,16 +287,22 @@ def run(ck, F):
             # virtual members, are never instantiated): nothing to dispatch; counted, not judged
             never_built.append(n)
             continue
-        call = single_call(f)
         want = f'{VISITOR}::visit(const {ifc} &)'
-        good = (call is not None and count_calls(f) == 1
-                and (call.get('callee') or {}).get('id') == want
-                and call.get('dyn')
-                and strip_casts(call.get('obj') or {}).get('kind') == 'parm'
-                and len(call['args']) == 1 and arg_is_this(call['args'][0]))
-        got = (call.get('callee') or {}).get('id') if call else 'not a single call'
-        ck.check(R3, n, good, f'accept() of {n} resolves to {got}, expected exactly one {want}',
-                 loc=f['loc'], fn=fo, detail={'accept': fo, 'resolved': got})
+        st3 = State()
+        me = st3.new_obj(n)
+        try:
+            outs3 = S6.run(fo, this=me, args=[('param', 0)], state=st3)
+        except Unsupported as e:
+            raise AnalysisBroken(f'{fo}: outside the evaluator language: {e}')
+        events = []
+        for s3, kind3, _v3 in outs3:
+            evs = [(e[1], e[2], e[3]) for e in s3.effects if e[0] in ('vcall', 'call', 'write', 'emplace')]
+            events.append(evs if kind3 == 'return' else 'throws')
+        good = len(events) == 1 and events[0] != 'throws' and len(events[0]) == 1 and events[0][0][0] == want \
+            and events[0][0][1] == ('param', 0) and len(events[0][0][2]) == 1 and events[0][0][2][0] in (me, ('addr', me))
+        got = 'throws' if 'throws' in events else [[x[0] for x in ev] for ev in events]
+        ck.check(R3, n, good, f'accept() of {n} does {got}, expected exactly one {want} on the visitor with *this',
+                 loc=f['loc'], fn=fo, detail={'accept': fo})
 
     # ---------------------------------------------------------------- rule 4
     R4 = ck.rule('C06.4-default-hook', 'every non-pure Visitor::visit(const K&) is exactly one dynamic call of '
@@ -306,13 +316,19 @@ def run(ck, F):
             ck.fail(R4, k, f'default hook {m["id"]} is declared but not defined in any library unit', loc=vis['loc'])
             continue
         want_sup = nearest_super(k)
-        call = single_call(f)
         want = f'{VISITOR}::visit(const {want_sup} &)'
-        got = (call.get('callee') or {}).get('id') if call else 'not a single call'
-        good = (call is not None and count_calls(f) <= 2 and got == want and call.get('dyn')
-                and strip_casts(call.get('obj') or {}).get('k') == 'this'
-                and len(call['args']) == 1 and arg_is_param0(F, call['args'][0]))
-        ck.check(R4, k, good, f'default hook for {k} forwards to {got}; its nearest abstract super-category is {want_sup}',
+        try:
+            outs4 = S6.run(m['id'], this=('sym', 'this'), args=[('param', 0)])
+        except Unsupported as e:
+            raise AnalysisBroken(f'{m["id"]}: outside the evaluator language: {e}')
+        events = []
+        for s4, kind4, _v4 in outs4:
+            evs = [(e[1], e[2], e[3]) for e in s4.effects if e[0] in ('vcall', 'call', 'write', 'emplace')]
+            events.append(evs if kind4 == 'return' else 'throws')
+        good = len(events) == 1 and events[0] != 'throws' and len(events[0]) == 1 and events[0][0][0] == want \
+            and events[0][0][1] == ('sym', 'this') and events[0][0][2] == (('param', 0),)
+        got = 'throws' if 'throws' in events else [[contracts.short(x[0]) for x in ev] for ev in events]
+        ck.check(R4, k, good, f'default hook for {k} does {got}; expected one call of visit on its nearest abstract super-category {want_sup} with the same node',
                  loc=f['loc'], fn=m['id'], detail={'chain': [k, want_sup]})
     pure = sorted(k for k, m in overloads.items() if m['pure'])
     ck.extra['pure_sinks'] = pure
@@ -324,44 +340,54 @@ def run(ck, F):
     views = [f for f in F.fn.values() if f['q'].startswith('ipr::util::view<') and not f.get('parent')]
     for f in sorted(views, key=lambda f: f['id']):
         T = (f.get('targs') or ['?'])[0]
-        vrec_name = f['id'] + '::visitor'
-        vr = F.rec.get(vrec_name)
-        if vr is None:
-            raise AnalysisBroken(f'local visitor class of {f["id"]} not found')
-        own = [m for m in vr['methods'] if m['name'] == 'visit' and not m['implicit']]
-        ok = len(own) == 1 and own[0]['params'] == [f'const {T} &'] and bool(own[0]['overrides'])
-        body_ok = False
-        if ok:
-            vf = F.fn.get(own[0]['id'])
-            if vf:
-                b = stmts(vf['body'])
-                if len(b) == 1 and b[0].get('k') == 'binop' and b[0].get('op') == '=':
-                    l, r = b[0]['l'], b[0]['r']
-                    body_ok = (l.get('k') == 'member' and l.get('name') == 'result'
-                               and r.get('k') == 'unop' and r.get('op') == '&'
-                               and strip_casts(r['e']).get('kind') == 'parm')
+        # evaluate view<T> on a node of unknown class: it must build one visitor, hand it to accept() of its argument
+        # exactly once and return what the visitor recorded
+        try:
+            outs5 = S6v.run(f['id'], args=[('param', 0)])
+        except Unsupported as e:
+            raise AnalysisBroken(f'{f["id"]}: outside the evaluator language: {e}')
+        why = []
+        vis_cls = None
+        if len(outs5) != 1 or outs5[0][1] != 'return':
+            why.append('more than one outcome')
+        else:
+            s5, _k5, v5 = outs5[0]
+            acc = [e for e in s5.effects if e[0] == 'vcall' and e[1] == ACCEPT]
+            other = [e for e in s5.effects if e[0] in ('vcall', 'call', 'write', 'emplace') and e not in acc]
+            if len(acc) != 1 or other:
+                why.append(f'{len(acc)} accept call(s), {len(other)} other effect(s)')
             else:
-                # visit() of the local class is only instantiated when used virtually; its pattern is checked
-                # through another instantiation
-                body_ok = None
-        base_ok = [b['name'] for b in vr['bases']] == ['ipr::Constant_visitor<ipr::No_op>']
-        init_ok = any(fl['name'] == 'result' and (fl.get('init') or {}).get('lt') == 'null'
-                      or fl['name'] == 'result' and strip_casts((fl.get('init') or {}).get('e') or {}).get('lt') == 'null'
-                      for fl in vr['fields'])
-        # body of view: decl vis; n.accept(vis); return vis.result
-        vb = stmts(f['body'])
-        shape_ok = False
-        accepts = [c for c in walk(f['body']) if c.get('k') == 'call' and (c.get('callee') or {}).get('id') == ACCEPT]
-        rets = [s for s in vb if s.get('k') == 'return']
-        if len(accepts) == 1 and len(rets) == 1 and vb and vb[-1] is rets[0]:
-            a = accepts[0]
-            re_ = strip_casts(rets[0]['e'])
-            shape_ok = (strip_casts(a['obj']).get('kind') == 'parm' and a.get('dyn')
-                        and strip_casts(a['args'][0]).get('kind') == 'local'
-                        and re_.get('k') == 'member' and re_.get('name') == 'result'
-                        and strip_casts(re_['base']).get('kind') == 'local')
-        ck.check(R5, f'view<{T}>', ok and body_ok is not False and base_ok and init_ok and shape_ok,
-                 f'util::view<{T}> deviates: own-override={ok} body={body_ok} base={base_ok} init={init_ok} shape={shape_ok}',
+                e5 = acc[0]
+                vo = e5[3][0][1] if e5[3] and e5[3][0][0] == 'addr' else (e5[3][0] if e5[3] else None)
+                if e5[2] != ('param', 0) or not (isinstance(vo, tuple) and vo[0] == 'obj' and vo[1] in s5.heap):
+                    why.append('accept is not called on the argument with a local visitor')
+                else:
+                    vis_cls = s5.heap[vo[1]].cls
+                    before = e5[4].get(vo[1], {})
+                    ptrs = [k for k, val in before.items() if val == NULL]
+                    if len(before) != 1 or len(ptrs) != 1:
+                        why.append(f'the visitor does not start with a single null result ({before})')
+                    elif v5 != s5.heap[vo[1]].fields.get(ptrs[0]):
+                        why.append('view does not return what the visitor recorded')
+        ok = body_ok = base_ok = False
+        if vis_cls and not why:
+            vr = F.need_rec(vis_cls)
+            own = [m for m in vr['methods'] if m['name'] == 'visit' and not m['implicit']]
+            ok = len(own) == 1 and own[0]['params'] == [f'const {T} &'] and bool(own[0]['overrides'])
+            base_ok = F.derives_from(vis_cls, 'ipr::Constant_visitor<ipr::No_op>') and \
+                not any(mm['name'] == 'visit' and not mm['implicit'] for a in F.ancestors(vis_cls)
+                        if a not in ('ipr::Constant_visitor<ipr::No_op>', VISITOR) and a in F.rec for mm in F.rec[a]['methods'])
+            vf = F.fn.get(own[0]['id']) if ok else None
+            if vf:
+                st5 = State()
+                vo5 = st5.new_obj(vis_cls)
+                r5 = S6.run(vf['id'], this=vo5, args=[('param', 7)], state=st5)
+                body_ok = len(r5) == 1 and r5[0][1] == 'return' and list(r5[0][0].heap[vo5[1]].fields.values()) == [('addr', ('param', 7))] \
+                    and not [e for e in r5[0][0].effects if e[0] in ('vcall', 'call', 'write', 'emplace')]
+            elif ok:
+                body_ok = None          # visit() of a local class is instantiated only where it is used virtually
+        ck.check(R5, f'view<{T}>', not why and ok and body_ok is not False and base_ok,
+                 f'util::view<{T}> deviates: {"; ".join(why) or "visitor"} own-override={ok} records-its-argument={body_ok} no-op-base={base_ok}',
                  loc=f['loc'], fn=f['id'])
     # Constant_visitor<No_op> sinks
     cv = F.rec.get('ipr::Constant_visitor<ipr::No_op>')
@@ -375,14 +401,15 @@ def run(ck, F):
         sf = F.fn.get(m['id'])
         if sf is None:
             continue
-        cs = [c for c in walk(sf['body']) if c.get('k') == 'call']
-        good = len(cs) == 1 and (cs[0].get('callee') or {}).get('id') == 'ipr::No_op::operator()(const ipr::Node &) const'
+        st6 = State()
+        cvo = st6.new_obj('ipr::Constant_visitor<ipr::No_op>')
+        try:
+            r6 = S6.run(m['id'], this=cvo, args=[('param', 0)], state=st6)
+        except Unsupported as e:
+            raise AnalysisBroken(f'{m["id"]}: outside the evaluator language: {e}')
+        good = len(r6) == 1 and r6[0][1] == 'return' and not [e for e in r6[0][0].effects if e[0] in ('vcall', 'call', 'write', 'emplace')]
         ck.check(R5, 'Constant_visitor<No_op>::' + m['id'].split('::')[-1], good,
-                 'a Constant_visitor<No_op> sink does something else than calling No_op', loc=sf['loc'])
-    nop = F.fn.get('ipr::No_op::operator()(const ipr::Node &) const')
-    if nop is None:
-        raise AnalysisBroken('No_op::operator() body not found')
-    ck.check(R5, 'No_op::operator()', len(stmts(nop['body'])) == 0, 'No_op::operator() is not empty', loc=nop['loc'])
+                 'a Constant_visitor<No_op> sink does something (it must do nothing)', loc=sf['loc'])
 
     ck.extra['never_constructed_in_library'] = never_built
     if never_built:
